@@ -18,7 +18,7 @@ use crate::props::Prop;
 pub const PROP: Prop = Prop {
     id: "C16",
     level: "exploration",
-    rule: "operation x length x shape x builder, one child process per case on a 2 MiB thread stack in the plain optimised profile: operations = parse from str/slice/reader, datum parse from reader (and from str at n <= 10^5), to_string, Display, to_writer, Cons::to_vec/into_vec/to_ref_vec, Value::to_vec/to_ref_vec, iter, list_iter, into_iter, get(n-1), [usize::MAX], is_list, is_dotted_list, clone, ==, drop, Datum clone/==/drop/list_iter/value conversion, serde to_value/from_value/to_string/from_str of Vec<u32>; lengths drawn log-uniformly from [2*10^5, 4*10^6] (two draws per operation in the quick tier, eight plus one 10^7 in the thorough tier); shapes proper, dotted and association list; builders parser, constructors and Serde. The child verifies its result against a model (length, last element, printed text). A child killed by a signal is a violation with signature op=<operation>. Every case is non-trivial: 2*10^5 elements is far beyond what per-element recursion survives on 2 MiB; distinct by (op, n, shape, builder)",
+    rule: "operation x length x shape x builder, one child process per case on a 2 MiB thread stack in the plain optimised profile: operations = parse from str/slice/reader, datum parse from reader (and from str at n <= 10^5), to_string, Display, to_writer, Cons::to_vec/into_vec/to_ref_vec, Value::to_vec/to_ref_vec, iter, list_iter, into_iter, get(n-1), [usize::MAX], is_list, is_dotted_list, clone, ==, drop, Datum clone/==/drop/list_iter/value conversion, serde to_value/from_value/to_string/from_str of Vec<u32>; lengths drawn log-uniformly from [2*10^5, 4*10^6] (two draws per operation in the quick tier, eight plus one 10^7 in the thorough tier); shapes proper, dotted and association list; element kinds number, #nil, (), boolean, symbol, string, character, float, keyword, byte vector, empty vector and seven long runs of changing kind (drawn per case in the optimised profile, and ALL kinds under the element-touching operations drop, drop of a replaced tail, drop of a partly consumed into_iter, clone, ==, print, parse, parse failing at end of input with n elements collected, to_vec, Datum drop/clone/==/conversion in the unoptimised profile at 1-2*10^5 elements); builders parser, constructors and Serde. The child verifies its result against a model (length, last element, printed text). A child killed by a signal is a violation with signature op=<operation>. Every case is non-trivial: 2*10^5 elements is far beyond what per-element recursion survives on 2 MiB; distinct by (op, n, shape, builder)",
     assumptions: &[
         "stack independence is shown for the sampled lengths, on this platform, for the optimised (release-like) profile without debug assertions: frame sizes and tail-call elimination are compiler artefacts",
         "a watchdog expiry (120 s) is reported as inconclusive, never as a violation",
@@ -40,6 +40,47 @@ pub struct Spec {
     /// or "dev" (unoptimised)
     #[serde(default = "default_profile")]
     pub profile: String,
+    /// kind of the list elements (alist: of the keys): one of ELEM_KINDS
+    #[serde(default = "default_elems")]
+    pub elems: String,
+}
+
+fn default_elems() -> String {
+    "num".to_string()
+}
+
+/// Element kinds. "num" is the historical one; the others make sure no
+/// per-element-kind shortcut (an emptied-cell test, a fast path for
+/// immediates) takes an operation off its iterative path. "runs" is seven
+/// long runs, one per kind, so that the kind changes inside the list.
+pub const ELEM_KINDS: &[&str] = &["num", "nil", "null", "bool", "sym", "str", "char", "float", "kw", "bytes", "vec", "runs"];
+
+static ELEMS: std::sync::OnceLock<String> = std::sync::OnceLock::new();
+
+fn elems() -> &'static str {
+    ELEMS.get().map(|s| s.as_str()).unwrap_or("num")
+}
+
+/// (value, default-printer text) of the i-th element of kind `kind` in a list of n
+fn atom(i: usize, n: usize, kind: &str) -> (Value, String) {
+    match kind {
+        "nil" => (Value::Nil, "#nil".into()),
+        "null" => (Value::Null, "()".into()),
+        "bool" => (Value::Bool(i % 2 == 0), if i % 2 == 0 { "#t" } else { "#f" }.into()),
+        "sym" => (Value::symbol(format!("s{}", i % 10)), format!("s{}", i % 10)),
+        "str" => (Value::string(format!("t{}", i % 10)), format!("\"t{}\"", i % 10)),
+        "char" => (Value::Char((b'a' + (i % 26) as u8) as char), format!("#\\{}", (b'a' + (i % 26) as u8) as char)),
+        "float" => (Value::from((i % 100) as f64 + 0.5), format!("{}.5", i % 100)),
+        "kw" => (Value::keyword(format!("k{}", i % 10)), format!("#:k{}", i % 10)),
+        "bytes" => (Value::from(vec![(i % 200) as u8]), format!("#u8({})", i % 200)),
+        "vec" => (Value::Vector(Vec::new().into()), "#()".into()),
+        "runs" => {
+            const RUN: [&str; 7] = ["nil", "num", "null", "sym", "bool", "str", "vec"];
+            let run = (n / 7).max(1);
+            atom(i, n, RUN[(i / run) % 7])
+        }
+        _ => (Value::from((i % 1000) as u32), (i % 1000).to_string()),
+    }
 }
 
 fn default_profile() -> String {
@@ -59,9 +100,9 @@ fn text_of(n: usize, shape: &str) -> String {
             s.push(' ');
         }
         if shape == "alist" {
-            s.push_str(&format!("({} . {})", i % 1000, i % 7));
+            s.push_str(&format!("({} . {})", atom(i, n, elems()).1, i % 7));
         } else {
-            s.push_str(&(i % 1000).to_string());
+            s.push_str(&atom(i, n, elems()).1);
         }
     }
     if shape == "dotted" {
@@ -71,11 +112,11 @@ fn text_of(n: usize, shape: &str) -> String {
     s
 }
 
-fn elem(i: usize, shape: &str) -> Value {
+fn elem(i: usize, n: usize, shape: &str) -> Value {
     if shape == "alist" {
-        Value::cons((i % 1000) as u32, (i % 7) as u32)
+        Value::cons(atom(i, n, elems()).0, (i % 7) as u32)
     } else {
-        Value::from((i % 1000) as u32)
+        atom(i, n, elems()).0
     }
 }
 
@@ -93,7 +134,7 @@ fn build(spec: &Spec) -> Value {
             Value::Null
         }
         _ => {
-            let items = (0..n).map(|i| elem(i, &spec.shape));
+            let items = (0..n).map(|i| elem(i, n, &spec.shape));
             if spec.shape == "dotted" {
                 Value::append(items, Value::symbol("end"))
             } else {
@@ -108,10 +149,12 @@ fn verify(v: &Value, n: usize, shape: &str) -> bool {
     let mut cur = v;
     let mut i = 0usize;
     while let Value::Cons(c) = cur {
+        // the elements are atoms (or empty vectors): == on them does not recurse
+        let want = atom(i, n, elems()).0;
         let ok = if shape == "alist" {
-            c.car().as_pair().map_or(false, |(a, b)| a.as_u64() == Some((i % 1000) as u64) && b.as_u64() == Some((i % 7) as u64))
+            c.car().as_pair().map_or(false, |(a, b)| *a == want && b.as_u64() == Some((i % 7) as u64))
         } else {
-            c.car().as_u64() == Some((i % 1000) as u64)
+            *c.car() == want
         };
         if !ok {
             return false;
@@ -123,6 +166,7 @@ fn verify(v: &Value, n: usize, shape: &str) -> bool {
 }
 
 fn run_op(spec: &Spec) -> Json {
+    let _ = ELEMS.set(spec.elems.clone());
     let n = spec.n;
     let shape = spec.shape.as_str();
     let op = spec.op.as_str();
@@ -155,6 +199,17 @@ fn run_op(spec: &Spec) -> Json {
             let r = verify(&v, n, shape) && p.next_value().expect("end").is_none();
             std::mem::forget(v);
             r
+        }
+        "parse-error-discard" | "datum-parse-error-discard" => {
+            // the closing parenthesis is missing: the parser has to give up at
+            // end of input and discard the n elements it has collected
+            let mut t = text_of(n, shape);
+            t.pop();
+            if op == "parse-error-discard" {
+                lexpr::from_reader(Cursor::new(t.into_bytes())).is_err()
+            } else {
+                lexpr::datum::from_reader(Cursor::new(t.into_bytes())).is_err()
+            }
         }
         "datum-parse-reader" | "datum-parse-str" | "datum-clone" | "datum-eq" | "datum-drop" | "datum-list_iter" | "datum-into-value" | "datum-as_pair-walk" => {
             let t = text_of(n, shape);
@@ -279,7 +334,7 @@ fn run_op(spec: &Spec) -> Json {
                     }
                     count == n + if proper { 0 } else { 1 }
                 }
-                "get-last" => v.get(n - 1).map_or(false, |x| *x == elem(n - 1, shape)) && v.get(n).is_none(),
+                "get-last" => v.get(n - 1).map_or(false, |x| *x == elem(n - 1, n, shape)) && v.get(n).is_none(),
                 "index-max" => v[usize::MAX].is_nil() && v[n + 5].is_nil(),
                 "index-name" => v.get("no-such-key").is_none() && v["no-such-key"].is_nil() && v.get(&Value::from(123456u32)).is_none(),
                 "is_list" => v.is_list() == proper,
@@ -298,12 +353,38 @@ fn run_op(spec: &Spec) -> Json {
                 }
                 "ne-last" => {
                     // differs only in the last element: the comparison has to walk everything
-                    let w = Value::append((0..n).map(|i| elem(i, shape)), Value::symbol("other-end"));
+                    let w = Value::append((0..n).map(|i| elem(i, n, shape)), Value::symbol("other-end"));
                     let r = v != w;
                     std::mem::forget(w);
                     r
                 }
                 "drop" => true,
+                "drop-tail" => {
+                    // replacing the tail of the first cell drops the other n-1 cells
+                    let mut v = v;
+                    let r = match v.as_cons_mut() {
+                        Some(c) => {
+                            c.set_cdr(Value::Null);
+                            true
+                        }
+                        None => false,
+                    };
+                    return json!({"ok": r && v.as_cons().map_or(false, |c| c.cdr().is_null())});
+                }
+                "into_iter-partial-drop" => {
+                    if let Value::Cons(c) = v {
+                        let mut it = c.into_iter();
+                        let mut seen = 0;
+                        for _ in 0..10 {
+                            if it.next().is_some() {
+                                seen += 1;
+                            }
+                        }
+                        drop(it);
+                        return json!({"ok": seen == 10});
+                    }
+                    false
+                }
                 "cons-into_vec" | "into_iter-count" => {
                     if let Value::Cons(c) = v {
                         return json!({"ok": if op == "cons-into_vec" {
@@ -341,8 +422,14 @@ pub fn child_main(spec: &str) -> i32 {
 
 pub fn judge(s: &Spec, out: &ChildOutcome) -> Result<CaseResult, String> {
     let case = json!({"spec": s});
-    let sig_op = format!("op={} shape={}{}", s.op, s.shape, if s.profile == "dev" { " profile=dev" } else { "" });
-    let desc = format!("{} on a {} list of {} elements built by {} ({} profile)", s.op, s.shape, s.n, s.builder, s.profile);
+    let sig_op = format!(
+        "op={} shape={}{}{}",
+        s.op,
+        s.shape,
+        if s.elems == "num" { String::new() } else { format!(" elems={}", s.elems) },
+        if s.profile == "dev" { " profile=dev" } else { "" }
+    );
+    let desc = format!("{} on a {} list of {} {} elements built by {} ({} profile)", s.op, s.shape, s.n, s.elems, s.builder, s.profile);
     match out {
         ChildOutcome::Timeout => Err(format!("watchdog expired: {}", desc)),
         ChildOutcome::SpawnError(e) => Err(format!("cannot spawn child: {}", e)),
@@ -388,10 +475,18 @@ pub fn judge(s: &Spec, out: &ChildOutcome) -> Result<CaseResult, String> {
 const VALUE_OPS: &[&str] = &[
     "print-to_string", "print-display", "print-to_writer", "cons-to_vec", "cons-into_vec", "cons-to_ref_vec", "value-to_vec",
     "value-to_ref_vec", "iter-count", "list_iter-count", "into_iter-count", "get-last", "index-max", "index-name", "is_list",
-    "is_dotted_list", "clone", "eq", "ne-last", "drop",
+    "is_dotted_list", "clone", "eq", "ne-last", "drop", "drop-tail", "into_iter-partial-drop",
 ];
-const PARSE_OPS: &[&str] = &["parse-str", "parse-slice", "parse-reader", "parse-iter"];
-const DATUM_OPS: &[&str] = &["datum-parse-reader", "datum-clone", "datum-eq", "datum-drop", "datum-list_iter", "datum-into-value", "datum-as_pair-walk"];
+const PARSE_OPS: &[&str] = &["parse-str", "parse-slice", "parse-reader", "parse-iter", "parse-error-discard"];
+const DATUM_OPS: &[&str] = &[
+    "datum-parse-reader", "datum-clone", "datum-eq", "datum-drop", "datum-list_iter", "datum-into-value", "datum-as_pair-walk",
+    "datum-parse-error-discard",
+];
+/// operations swept over every element kind in the unoptimised profile
+const KIND_SWEEP_OPS: &[&str] = &[
+    "drop", "drop-tail", "into_iter-partial-drop", "clone", "eq", "print-to_string", "parse-reader", "parse-error-discard", "value-to_vec",
+    "datum-drop", "datum-clone", "datum-eq", "datum-into-value",
+];
 const SERDE_OPS: &[&str] = &["serde-to_value", "serde-from_value", "serde-to_string", "serde-from_str"];
 
 fn specs(tier: Tier, seed: u64) -> Vec<Spec> {
@@ -411,22 +506,23 @@ fn specs(tier: Tier, seed: u64) -> Vec<Spec> {
                 let n = draw_n(&mut k);
                 let shape = shapes[(mix(seed, k + 77) % 3) as usize];
                 let builder = if gi == 0 { ["parser", "ctor", "ctor"][(d + k as usize) % 3] } else { "parser" };
-                out.push(Spec { op: op.to_string(), n, shape: shape.to_string(), builder: builder.to_string(), profile: "plain".into() });
+                let elems = ELEM_KINDS[(mix(seed, k + 55) % ELEM_KINDS.len() as u64) as usize];
+                out.push(Spec { op: op.to_string(), n, shape: shape.to_string(), builder: builder.to_string(), profile: "plain".into(), elems: elems.into() });
             }
         }
     }
     for op in SERDE_OPS {
         for d in 0..draws {
             let n = draw_n(&mut k);
-            out.push(Spec { op: op.to_string(), n, shape: "proper".into(), builder: if d % 2 == 0 { "serde" } else { "ctor" }.into(), profile: "plain".into() });
+            out.push(Spec { op: op.to_string(), n, shape: "proper".into(), builder: if d % 2 == 0 { "serde" } else { "ctor" }.into(), profile: "plain".into(), elems: "num".into() });
         }
     }
     // the value built by Serde goes through the value operations too
     for op in ["clone", "eq", "drop", "print-to_string", "value-to_vec"] {
-        out.push(Spec { op: op.to_string(), n: draw_n(&mut k), shape: "proper".into(), builder: "serde".into(), profile: "plain".into() });
+        out.push(Spec { op: op.to_string(), n: draw_n(&mut k), shape: "proper".into(), builder: "serde".into(), profile: "plain".into(), elems: "num".into() });
     }
     // datum parsing from &str recomputes positions per datum (quadratic): keep n small there
-    out.push(Spec { op: "datum-parse-str".into(), n: 100_000, shape: "proper".into(), builder: "parser".into(), profile: "plain".into() });
+    out.push(Spec { op: "datum-parse-str".into(), n: 100_000, shape: "proper".into(), builder: "parser".into(), profile: "plain".into(), elems: "runs".into() });
     // the same operations in an unoptimised build: stack independence must not
     // rest on the optimiser turning recursion into loops (smaller n: the
     // unoptimised build is an order of magnitude slower, and per-element
@@ -438,13 +534,28 @@ fn specs(tier: Tier, seed: u64) -> Vec<Spec> {
             let n = 200_000 + (mix(seed, k) % 200_000) as usize;
             let shape = if group.as_ptr() == SERDE_OPS.as_ptr() { "proper" } else { shapes[(mix(seed, k + 99) % 3) as usize] };
             let builder = if op.starts_with("serde") { "serde" } else if k % 2 == 0 { "ctor" } else { "parser" };
-            dev.push(Spec { op: op.to_string(), n, shape: shape.to_string(), builder: builder.to_string(), profile: "dev".into() });
+            let elems = if builder == "serde" { "num" } else { ELEM_KINDS[(mix(seed, k + 55) % ELEM_KINDS.len() as u64) as usize] };
+            dev.push(Spec { op: op.to_string(), n, shape: shape.to_string(), builder: builder.to_string(), profile: "dev".into(), elems: elems.into() });
+        }
+    }
+    // every element kind under the operations that touch the elements (cheap
+    // at this size; the shape and the builder rotate with the seed)
+    for (oi, op) in KIND_SWEEP_OPS.iter().enumerate() {
+        for (ki, kind) in ELEM_KINDS.iter().enumerate() {
+            if *kind == "num" {
+                continue;
+            }
+            k += 1;
+            let shape = shapes[((seed as usize).wrapping_add(oi + ki)) % 3];
+            let builder = if op.starts_with("parse") || op.starts_with("datum") || (seed as usize + oi + ki) % 2 == 0 { "parser" } else { "ctor" };
+            let n = 100_000 + (mix(seed, k) % 100_000) as usize;
+            dev.push(Spec { op: op.to_string(), n, shape: shape.to_string(), builder: builder.to_string(), profile: "dev".into(), elems: kind.to_string() });
         }
     }
     out.extend(dev);
     if tier == Tier::Thorough {
         for op in ["parse-reader", "print-to_string", "drop", "eq", "iter-count", "datum-parse-reader", "serde-from_value"] {
-            out.push(Spec { op: op.to_string(), n: 10_000_000, shape: "proper".into(), builder: if op.starts_with("serde") { "serde" } else { "parser" }.into(), profile: "plain".into() });
+            out.push(Spec { op: op.to_string(), n: 10_000_000, shape: "proper".into(), builder: if op.starts_with("serde") { "serde" } else { "parser" }.into(), profile: "plain".into(), elems: "num".into() });
         }
     }
     out
